@@ -87,9 +87,31 @@ def run(ctx, repo):
                         if isinstance(n, ast.Subscript) and isinstance(n.value, ast.Name) and n.value.id == pname and isinstance(n.ctx, ast.Load) \
                                 and not isinstance(getattr(n, '_parent', None), ast.Compare):
                             pass
+                def _normalised_by_flow(use):
+                    # every definition of the name that reaches the use is the normalised value: x.upper() / normalize_gender(x), or
+                    # (for the event) an upper-case string constant; the bare parameter must not reach it
+                    from ..cfg import reaching_defs
+                    try:
+                        defs_ = reaching_defs(f, pname, use)
+                    except Exception:
+                        return False
+                    if not defs_ or None in defs_:
+                        return False
+                    for d_ in defs_:
+                        v_ = getattr(d_, 'value', None)
+                        if not isinstance(d_, ast.Assign) or v_ is None:
+                            return False
+                        if what == 'upper' and isinstance(v_, ast.Constant) and isinstance(v_.value, str) and v_.value == v_.value.upper():
+                            continue
+                        if what == 'upper' and isinstance(v_, ast.Call) and isinstance(v_.func, ast.Attribute) and v_.func.attr == 'upper':
+                            continue
+                        if what == 'normalize_gender' and isinstance(v_, ast.Call) and call_name(v_) == 'normalize_gender':
+                            continue
+                        return False
+                    return True
                 for n, desc in uses:
                     ui = top_index(f, n)
-                    if norm_idx is None or ui is None or ui < norm_idx:
+                    if (norm_idx is None or ui is None or ui < norm_idx) and not _normalised_by_flow(n):
                         ctx.finding('R2', '%s::%s.%s::%s used as key without %s' % (AGE, cname, f.name, pname, what), AGE, n.lineno,
                                     '%s.%s uses its %s parameter as a %s without passing it through %s first (its sibling '
                                     'calculate_factor does): %s' % (cname, f.name, pname, desc, what,
